@@ -15,7 +15,9 @@ from props import common
 from props.kernel_common import heap_item, q, bfail, bok
 
 PROP = 'C10'
-FUNCS = ['getObjectClockDriver', 'Simulator._clk_cycle', 'ClockDriverSimulator.clockAll']
+FUNCS = ['getObjectClockDriver', 'Simulator._clk_cycle', 'ClockDriverSimulator.clockAll',
+         # blocks inherit the NEAREST ancestor's driver: every sequential leaf is registered under the simulator of nearest(leaf), nowhere else
+         'Simulator.getOrCreateClockDriverSimulator', 'ClockDriverSimulator.addClockable', 'Simulator.topologicalSort']
 
 
 def gated(seed=0, n=200, **kw):
@@ -68,10 +70,10 @@ def main(tier, seed, only=None):
     items = common.filter_only(items, only)
     res = run.run_items(items)
     return run.finish(PROP, tier, res, t0, level='proof', seed=seed,
-                      functions=['py4hw/base.py::getObjectClockDriver', 'py4hw/simulation.py::Simulator._clk_cycle', 'py4hw/simulation.py::ClockDriverSimulator.clockAll', L.LEAVES[('GatedClock', 'propagate')].qual],
+                      functions=['py4hw/base.py::getObjectClockDriver'] + ['py4hw/simulation.py::' + f for f in FUNCS[1:]] + [L.LEAVES[('GatedClock', 'propagate')].qual],
                       assumptions=['abstract clock contract for obj.clock() as in C05 (it prepares only wires it drives)',
                                    'output-wire clause: proved in _clk_cycle -- every pending wire at settle time was prepared by a stepped block (clockAll: new pending wires belong to blocks of that domain), so a wire driven by a sequential block that was not stepped (gated-off domain) is not pending, keeps its value through Wire.settleAll, and is not written by the propagate() calls that follow (blocks that are also in the propagatables list are excluded from the clause)', 'termination of the getObjectClockDriver recursion: measure depth stated, decrease obligation not generated',
-                                   'registration of a block under exactly the driver getObjectClockDriver returns happens in the first loop of topologicalSort (frames assumed, not proved)',
+                                   'registration: topologicalSort is proved to register every sequential leaf under the simulator of nearest(leaf) (= what getObjectClockDriver returns), in no other list and only once; the ghost `dom` of the _clk_cycle contract is this `nearest` (its requires are the Skolem form of these ensures); assumed: allLeaves returns every clockable object, without duplicates',
                                    common.dropped_note()],
                       bounded_parts=[{'what': 'real two-domain designs (enable from an input; enable derived from a register inside the gated domain; driver placed on an ancestor) against a Python reference, including the output-wire clause', 'cycles_per_variant': 100 if tier == 'quick' else 1000}],
                       trusted_extra=['heap-mode VC generator pvc/heap.py'], canary_ok=work.canary(), min_obligations=20)
